@@ -22,7 +22,7 @@ ASSUMPTIONS = [
     "a decryptor key with one flipped bit opening a container by chance (2^-24) and then also passing two MACs (2^-128) is treated as impossible",
     "base files are drawn by a seeded random.Random owned by the enumerating driver; the fault product per base file is complete",
 ]
-REQUIRED_CLASSES = ["route=path", "route=stream", "fault=byte", "fault=cutbin", "fault=cuttext", "fault=append", "fault=keybit", "framing=bf3", "framing=bec2",
+REQUIRED_CLASSES = ["region=opened-auth-block-value", "route=path", "route=stream", "fault=byte", "fault=cutbin", "fault=cuttext", "fault=append", "fault=keybit", "framing=bf3", "framing=bec2",
                     "region=dirsize", "region=entry", "region=payload", "region=header", "base.last-payload-trailing00", "cut.drops-only-00", "payload>4096", "base.enc-tag=fwkey"]
 
 _BASES = {}
@@ -102,6 +102,17 @@ def build(base):
     b.original = read_content(base, b.text, b.decryptors)
     if isinstance(b.original, Exception):
         raise Violation("the undamaged file is rejected by its own reader: %s: %s" % (type(b.original).__name__, b.original))
+    # BEC2: value-byte ranges of the auth blocks the reader OPENED in the undamaged file, and how it reported all blocks
+    b.opened_values, b.blocks = [], list(LAST_BLOCKS)
+    if base["framing"] == "bec2":
+        hb, _ = M.parse_bec2_header(b.binary)
+        q = 5
+        for i, (tag, val) in enumerate(hb):
+            if i < len(b.blocks) and "'unknown'" not in b.blocks[i]:
+                # (the key-selector byte of an ECC block is routing information like the tag: changing it makes the block one the reader
+                # has no decryptor for, which the format allows; the authenticated part starts behind it)
+                b.opened_values.append((q + 2 + (1 if tag == 3 else 0), q + 2 + len(val), i))
+            q += 2 + len(val)
     # region map (from the independent header parser): list of (start, end, name)
     regions = [(0, 5, "signature")]
     pos = 5
@@ -120,6 +131,7 @@ def build(base):
 
 
 ROUTES = {"stream": 0, "path": 0}
+LAST_BLOCKS = []  # the auth blocks as the reader reported them in the most recent successful BEC2 read
 
 
 def _source(text):
@@ -143,6 +155,7 @@ def read_content(base, text, decryptors, key_override=None):
         else:
             g = sut.Bec2File.read_file(_source(text), decryptors, check_cmac=True)
             f, sk = g.bf3file, bytes(g.session_key)
+            LAST_BLOCKS[:] = [repr(sorted(sut.obs_authblock(ab).items())) for ab in g.auth_blocks.values()]
     except Exception as e:
         return e
     comps = []
@@ -225,6 +238,9 @@ def check(case, rec):
         sig_intact = fault[1] >= len(b.text) - len(b.text.split("\n\n", 1)[-1]) + 10
     if sig_intact:
         rec.nt((base["idx"], fault))
+    in_opened = fault[0] == "byte" and any(s <= fault[1] < e for s, e, _ in b.opened_values)
+    if in_opened:
+        rec.cls("region=opened-auth-block-value")
     got = read_content(base, text, decryptors, key_override)
     rec.cls("route=" + ROUTES.get("last", "stream"))
     if isinstance(got, Exception):
@@ -232,6 +248,12 @@ def check(case, rec):
         return
     if got == b.original:
         rec.cls("outcome=same-content")
+        # the header is not covered by a MAC, but a block the reader OPENED authenticates its own value (frame CRC / ECIES): a damaged byte
+        # inside such a value must not be passed over - the reader reports an error or still reports the same blocks
+        if in_opened:
+            if list(LAST_BLOCKS) != b.blocks:
+                raise Violation("fault %r inside the value of an auth block that the reader had opened is silently accepted: blocks reported %s, undamaged file %s" % (
+                    fault, LAST_BLOCKS, b.blocks))
         return
     raise Violation("fault %r on an authentic %s file is silently accepted with different content: original %s, returned %s" % (
         fault, base["framing"], _show(b.original), _show(got)))
